@@ -30,6 +30,9 @@ def key(op, impl, M, S):
         return "shape:" + body.split(" ")[1]
     if impl.startswith("panic"): return "panic"
     reason = S[len("spec-rejects:"):] if (S or "").startswith("spec-rejects:") else "observation-differs"
+    if "Int.Pipe(" in how:
+        # the directed family: a Pipe built with ZodIntegerTyped.Pipe (hands the target an int64 copy)
+        return "int-method-pipe:" + reason
     if "Refine(CustomParams)" in how:
         # the directed family: CustomParams handed to ZodIntegerTyped.Refine
         return "int-refine-customparams:" + reason
